@@ -1,4 +1,5 @@
 pub mod cfg;
+pub mod dot;
 pub mod qmatch;
 pub mod text;
 pub mod xtree;
